@@ -5,6 +5,7 @@ import (
 	"bytes"
 	"encoding/binary"
 	"fmt"
+	"net"
 	"regexp"
 	"runtime"
 	"sort"
@@ -47,6 +48,8 @@ type worker struct {
 	rb     *reqBuilder
 	qs     []string
 	file   string
+	f1tag  string // "" = family 1; "f8" while a family-8 shard (configuration combinations) runs the same cases
+	f5tag  string // "" = family 5; "f7" while a family-7 shard (HTAB separators) runs the same parsers
 	f4     *f4App // non-nil while a family-4 shard runs (the app is then a shape app, not cfgs[cfgIdx])
 
 	caseNo   int64 // number of the case being executed (worker-local, deterministic)
@@ -63,7 +66,7 @@ type worker struct {
 	maxAlloc  uint64
 	maxAllocN int
 	maxDesc   string
-	samples   map[string][]any // at most two per family
+	samples   map[string][]any    // at most two per family
 	seen      map[uint64]struct{} // request bytes already run in the current shard (hashes)
 	ms0, ms1  runtime.MemStats
 }
@@ -75,7 +78,7 @@ func (w *worker) useCfg(i int) {
 	w.f4 = nil
 	w.cfgIdx = i
 	w.st = &appState{qs: w.qs, file: w.file}
-	w.app = buildApp(&cfgsAll[i], w.st)
+	w.app = buildApp(&cfgsEvery[i], w.st)
 	// warm-up, not judged: one-time initialisations (encoder caches, decoder tables, pools) are
 	// not a per-request cost
 	for _, q := range warmRequests {
@@ -90,7 +93,7 @@ var warmRequests = []string{
 	"GET /h/Set?i=1 HTTP/1.1\r\nHost: h\r\n\r\n",
 }
 
-func (w *worker) cfg() *cfgT { return &cfgsAll[w.cfgIdx] }
+func (w *worker) cfg() *cfgT { return &cfgsEvery[w.cfgIdx] }
 
 // sample keeps at most two explored cases per family (and hands them to core's l.Sample).
 func (w *worker) sample(fam string, v map[string]any) {
@@ -134,7 +137,7 @@ func (w *worker) ctxKind() string {
 
 // serveRecover runs ServeConn; a panic that escapes the server is recovered HERE (fasthttp has
 // no recover of its own: in production it would kill the process).
-func serveRecover(app *fiber.App, conn *fx.WireConn) (pan *probePanic) {
+func serveRecover(app *fiber.App, conn net.Conn) (pan *probePanic) {
 	defer func() {
 		if v := recover(); v != nil {
 			pan = &probePanic{Probe: "(server)", Msg: normMsg(v), At: panicSite()}
@@ -265,12 +268,13 @@ func clipOut(b []byte) string {
 
 type judgeOpts struct {
 	fam          string
-	exactlyOne   bool   // the stream holds exactly one request: exactly one final response is required
-	skipParse    bool   // response syntax is not judged (argument outside the documented domain)
-	allocTrigger string // names the input class in an allocation signature
-	minTrigger   func() string // optional: narrows the class (called only when the budget is exceeded)
+	exactlyOne   bool                   // the stream holds exactly one request: exactly one final response is required
+	skipParse    bool                   // response syntax is not judged (argument outside the documented domain)
+	allocTrigger string                 // names the input class in an allocation signature
+	minTrigger   func() string          // optional: narrows the class (called only when the budget is exceeded)
 	parseSig     func(*ParseErr) string // family 3: classifies a response-syntax error per helper
 	inputCls     string                 // families 4, 5: names the input class (kind of application shape) in panic signatures; the target class is in the case
+	noResponseOK bool                   // family 6: the handler closes the connection without answering (Drop): no response is the documented outcome
 }
 
 // judgeCommon applies oracles (i) panic, (iii) allocation, (iv) strict parse + response count,
@@ -358,6 +362,7 @@ func (w *worker) judgeCommon(req []byte, res *result, desc func() map[string]any
 		// (fasthttp treats EOF at a chunk boundary that way). Unspecified.
 		l.Add("unspecified_skipped", 1)
 		l.Add("no_response_to_request_with_body_framing", 1)
+	case nf == 0 && o.noResponseOK:
 	case nf == 0 && ends > 0 && len(firstToken(req)) > 0:
 		// a complete body-less request head was received and nothing was answered
 		l.Violate(fmt.Sprintf("response-count fam=%s no-response", o.fam),
@@ -423,8 +428,12 @@ func countCls(n int) string {
 // family 1
 
 func (w *worker) runF1(line reqLine, h hset) {
+	tag, famName := "f1", "f1-grammar"
+	if w.f1tag != "" {
+		tag, famName = w.f1tag, "f8-config-combinations"
+	}
 	desc := func() map[string]any {
-		return map[string]any{"family": "f1-grammar", "config": w.cfg().Name, "method": line.M.M, "target": clipStr(line.T.T, 80), "version": line.V.V, "letters": h.ids(), "request": clipReq(w.rb.build(line, h))}
+		return map[string]any{"family": famName, "config": w.cfg().Name, "method": line.M.M, "target": clipStr(line.T.T, 80), "version": line.V.V, "letters": h.ids(), "request": clipReq(w.rb.build(line, h))}
 	}
 	if !w.begin(desc) {
 		return
@@ -433,7 +442,7 @@ func (w *worker) runF1(line reqLine, h hset) {
 	req := w.rb.build(line, h)
 	res := w.exec(req)
 	l.Add("evaluations", 1)
-	l.Add("f1_cases", 1)
+	l.Add(tag+"_cases", 1)
 	if w.firstTime(req) && (len(h) > 0 || !line.T.Valid || !line.V.OK || !line.M.Token || line.M.M == "FOO" || line.M.M == "get") {
 		l.Add("nontrivial", 1)
 	}
@@ -454,15 +463,19 @@ func (w *worker) runF1(line reqLine, h hset) {
 	if !line.M.Token {
 		malID = "empty-method"
 	}
-	trig := "f1:" + strings.Join(h.ids(), "+")
-	first := w.judgeCommon(req, res, desc, judgeOpts{fam: "f1", exactlyOne: simple && !hostile && line.M.Token, allocTrigger: trig,
+	trig := tag + ":" + strings.Join(h.ids(), "+")
+	inputCls := ""
+	if tag == "f8" {
+		inputCls = "f8 config=" + w.cfg().Name // a crash that needs the combination names it
+	}
+	first := w.judgeCommon(req, res, desc, judgeOpts{fam: tag, exactlyOne: simple && !hostile && line.M.Token, allocTrigger: trig, inputCls: inputCls,
 		minTrigger: func() string {
 			// name the single letter that is enough to exceed the budget, if there is one
 			rb := newReqBuilder()
 			for _, x := range h {
 				one := rb.build(line, hset{x})
 				if w.remeasure(one) > budgetFor(len(one)) {
-					return "f1:" + x.Slot + ":" + x.ID
+					return tag + ":" + x.Slot + ":" + x.ID
 				}
 			}
 			return trig
@@ -471,9 +484,9 @@ func (w *worker) runF1(line reqLine, h hset) {
 	if first != nil {
 		st = first.Status
 	}
-	l.Outcome(fmt.Sprintf("f1 st=%d eh=%d ran=%d n=%d range=%s fresh=%v flash=%d", st, w.st.ehCode, w.st.ran, len(res.resps), w.st.rangeCls, w.st.fresh, min(w.st.flashN, 3)))
+	l.Outcome(fmt.Sprintf("%s st=%d eh=%d ran=%d n=%d range=%s fresh=%v flash=%d", tag, st, w.st.ehCode, w.st.ran, len(res.resps), w.st.rangeCls, w.st.fresh, min(w.st.flashN, 3)))
 	if w.caseNo%100003 == 0 {
-		w.sample("f1", map[string]any{"case": desc(), "status": st, "handler_ran": w.st.ran, "alloc_bytes": res.alloc})
+		w.sample(tag, map[string]any{"case": desc(), "status": st, "handler_ran": w.st.ran, "alloc_bytes": res.alloc})
 	}
 	if w.st.rangeCls == "OUTSIDE" {
 		l.Violate("range-outside-size", "Range(1000) returned a range outside [0,1000): slicing the 1000-byte entity with it panics in the handler", desc(), nil, "0 <= Start <= End <= 999")
@@ -488,7 +501,7 @@ func (w *worker) runF1(line reqLine, h hset) {
 	}
 	// (vi) status rules on the definite classes only
 	inSet := w.cfg().hasMethod(line.M.M)
-	small := w.cfg().Name == "smallbuf" && (st == 413 || st == 431)
+	small := w.cfg().Small && (st == 413 || st == 431)
 	switch {
 	case malID != "":
 		ok := (st >= 400 && st <= 499) || (st == 501 && line.M.Token && !inSet)
@@ -562,7 +575,7 @@ func (w *worker) runF2(seedIdx int, buf *[]byte, es ...edit) {
 	if w.st.rangeCls == "OUTSIDE" {
 		l.Violate("range-outside-size", "Range(1000) returned a range outside [0,1000): slicing the 1000-byte entity with it panics in the handler", desc(), nil, "0 <= Start <= End <= 999")
 	}
-	if len(es) == 0 && (st != 200 || w.st.ran == 0) && !(w.cfg().Name == "smallbuf" && (st == 413 || st == 431)) && len(w.st.panics) == 0 {
+	if len(es) == 0 && (st != 200 || w.st.ran == 0) && !(w.cfg().Small && (st == 413 || st == 431)) && len(w.st.panics) == 0 {
 		// anti-vacuity: every seed must be a request the server serves
 		core.Fatal("seed %d is not served with 200 by config %s (status %d): %s", seedIdx, w.cfg().Name, st, clipOut(res.out))
 	}
@@ -771,19 +784,39 @@ func (w *worker) runF5Shard(u *unit5) {
 			reached++
 		}
 	})
-	if reached == 0 && w.only < 0 && len(w.skip) == 0 && w.after == 0 && w.cfg().Name != "smallbuf" { // smallbuf: BodyLimit 64 legitimately refuses the larger bodies
+	if reached == 0 && w.only < 0 && len(w.skip) == 0 && w.after == 0 && !w.cfg().Small { // smallbuf: BodyLimit 64 legitimately refuses the larger bodies
 		core.Fatal("family 5: no value of parser %s reached the /all handler (config %s)", p.Name, w.cfg().Name)
 	}
 }
 
+// runF7Shard: the same unit with HTAB separators (sequences of 2, and of 3 when long).
+func (w *worker) runF7Shard(u *unit5, long bool) {
+	p := &parsers5[u.P]
+	maxLen := 2
+	if long {
+		maxLen = 3
+	}
+	var buf []byte
+	w.f5tag = "f7"
+	enumTabSeqs5(p, maxLen, func(seq []int, sep string) {
+		buf = build5(buf, u, seq, sep)
+		w.runF5(u, seq, sep, buf)
+	})
+	w.f5tag = ""
+}
+
 func (w *worker) runF5(u *unit5, seq []int, sep string, req []byte) bool {
 	p := &parsers5[u.P]
+	tag, famName := "f5", "f5-repetition"
+	if w.f5tag != "" {
+		tag, famName = w.f5tag, "f7-tabs"
+	}
 	desc := func() map[string]any {
 		var el []string
 		for _, i := range seq {
 			el = append(el, p.Elems[i])
 		}
-		return map[string]any{"family": "f5-repetition", "config": w.cfg().Name, "parser": p.Name, "prefix": u.Prefix, "elements": el, "separator": sepName(sep),
+		return map[string]any{"family": famName, "config": w.cfg().Name, "parser": p.Name, "prefix": u.Prefix, "elements": el, "separator": sepName(sep),
 			"companions": u.Comp, "body_encoded": u.Encoded, "request": clipReq(req)}
 	}
 	if !w.begin(desc) {
@@ -792,19 +825,19 @@ func (w *worker) runF5(u *unit5, seq []int, sep string, req []byte) bool {
 	l := w.l
 	res := w.exec(req)
 	l.Add("evaluations", 1)
-	l.Add("f5_cases", 1)
+	l.Add(tag+"_cases", 1)
 	if w.firstTime(req) && len(seq) > 0 {
 		l.Add("nontrivial", 1)
 	}
 	hasBody := p.Post || p.Where == "body"
-	first := w.judgeCommon(req, res, desc, judgeOpts{fam: "f5", exactlyOne: !hasBody, allocTrigger: "f5:" + p.Name, inputCls: "f5 parser=" + p.Name})
+	first := w.judgeCommon(req, res, desc, judgeOpts{fam: tag, exactlyOne: !hasBody, allocTrigger: tag + ":" + p.Name, inputCls: tag + " parser=" + p.Name})
 	st := 0
 	if first != nil {
 		st = first.Status
 	}
-	l.Outcome(fmt.Sprintf("f5 st=%d eh=%d ran=%d n=%d range=%s fresh=%v flash=%d body=%s", st, w.st.ehCode, w.st.ran, len(res.resps), w.st.rangeCls, w.st.fresh, min(w.st.flashN, 3), w.st.bodyCls))
+	l.Outcome(fmt.Sprintf("%s st=%d eh=%d ran=%d n=%d range=%s fresh=%v flash=%d body=%s", tag, st, w.st.ehCode, w.st.ran, len(res.resps), w.st.rangeCls, w.st.fresh, min(w.st.flashN, 3), w.st.bodyCls))
 	if w.caseNo%50021 == 0 {
-		w.sample("f5", map[string]any{"case": desc(), "status": st, "handler_ran": w.st.ran, "alloc_bytes": res.alloc})
+		w.sample(tag, map[string]any{"case": desc(), "status": st, "handler_ran": w.st.ran, "alloc_bytes": res.alloc})
 	}
 	if w.st.rangeCls == "OUTSIDE" {
 		l.Violate("range-outside-size", "Range(1000) returned a range outside [0,1000): slicing the 1000-byte entity with it panics in the handler", desc(), nil, "0 <= Start <= End <= 999")
